@@ -123,6 +123,9 @@ fn finding_key(case: &Case, v: &Violation) -> String {
         if last.starts_with('.') && !(dir.is_none() && inv.cwd == ".") && matches!(v.invariant.as_str(), "I14.3-exit" | "I15.1-notwritten") {
             return "format-all:walked-directory-name-starts-with-dot".into();
         }
+        if v.invariant == "I14.3-exit" && v.message.contains("a walked directory could not be read") && !v.message.contains("=unformatted") && !v.message.contains("unreadable[") {
+            return "format-all:directory-read-error-not-reported".into();
+        }
         if matches!(v.invariant.as_str(), "I14.3-exit" | "I15.4-exit") && v.message.contains("unreadable[") {
             return "format-all:unreadable-eligible-file-not-reported".into();
         }
@@ -148,6 +151,68 @@ fn write_replay(property: &str, case: &Case, v: &Violation, digest: u64, note: &
     let r = Replay { engine: "clisim".into(), case: case.clone(), violation: v.clone(), log_digest: digest, note: note.into() };
     let _ = std::fs::write(&path, serde_json::to_string_pretty(&r).unwrap());
     path
+}
+
+
+/// I16.4 - no simulation involved: a plain differential of the width-only convenience function
+/// (what the wasm export wraps) against the library, over the same corpus.
+#[derive(serde::Serialize, serde::Deserialize, Clone, Debug)]
+struct HelperReplay {
+    engine: String,
+    text: vsim::util::Bytes,
+    width: usize,
+    violation: Violation,
+}
+
+fn helper_check(text: &str, width: usize) -> Option<String> {
+    let cfg = vsim::oracle::Cfg { column: width, ..Default::default() };
+    let want = match vsim::oracle::fmt_uncached(text, cfg) {
+        vsim::oracle::Fmt::Ok(s) => s,
+        vsim::oracle::Fmt::Erroneous => text.to_string(),
+        vsim::oracle::Fmt::Panic => return None,
+    };
+    let got = std::panic::catch_unwind(|| typstyle_core::format_with_width(text, width)).ok()?;
+    if got != want {
+        let d = vsim::util::first_diff(got.as_bytes(), want.as_bytes());
+        return Some(format!(
+            "format_with_width(text, {}) differs from the library result (or, for erroneous input, from the input): first difference at byte {} (have {:?}, want {:?})",
+            width,
+            d,
+            vsim::util::excerpt(&got.as_bytes()[d.min(got.len())..], 40),
+            vsim::util::excerpt(&want.as_bytes()[d.min(want.len())..], 40)
+        ));
+    }
+    None
+}
+
+fn helper_lane(params: &GenParams, base_seed: u64, n: u64) -> (u64, u64, Vec<(String, usize, String)>) {
+    let mut oracle = Oracle::new();
+    let mut evals = 0u64;
+    let mut erroneous = 0u64;
+    let mut bad = Vec::new();
+    for i in 0..n {
+        let seed = mix(base_seed ^ 0x164, i);
+        let mut docs = vsim::clisim::workload::Docs { rng: Rng::stream(seed, "helper"), oracle: &mut oracle, params, main_cfg: Default::default(), counter: 0, seed };
+        let b = docs.content();
+        let Some(text) = b.as_str() else { continue };
+        if text.len() > 30_000 {
+            continue;
+        }
+        let mut rng = Rng::stream(seed, "helper-width");
+        for _ in 0..3 {
+            let w = if rng.chance(0.5) { *rng.pick(vsim::clisim::workload::special_columns()) } else { rng.range(0, 400) };
+            evals += 1;
+            if vsim::oracle::is_erroneous(text) {
+                erroneous += 1;
+            }
+            if let Some(msg) = helper_check(text, w) {
+                if bad.len() < 20 {
+                    bad.push((text.to_string(), w, msg));
+                }
+            }
+        }
+    }
+    (evals, erroneous, bad)
 }
 
 fn cmd_run(args: &[String]) -> i32 {
@@ -212,8 +277,13 @@ fn cmd_run(args: &[String]) -> i32 {
                     let mut d = determinism.lock().unwrap();
                     d.0 += 1;
                     if r2.log_digest() != r.log_digest() || r2.case != r.case {
+                        // Not a verdict and not fatal: all oracles are state based, so the result of
+                        // this run stays sound; but exact replay is no longer guaranteed (e.g. the
+                        // CLI has become multi-threaded, which the interposer does not schedule).
                         d.1 += 1;
-                        stats.harness_errors.push(format!("seed {}: two executions of the same seed produced different event logs", seed));
+                        if d.1 <= 3 {
+                            eprintln!("WARNING: seed {}: two executions of the same seed produced different event logs (is the CLI still single-threaded?)", seed);
+                        }
                     }
                 }
                 if i < 3 || (i % 997 == 0 && samples.lock().unwrap().len() < 6) {
@@ -296,6 +366,41 @@ fn cmd_run(args: &[String]) -> i32 {
     let _ = std::fs::remove_dir_all(&env.base);
     cleanup_scratch();
 
+    // ---- I16.4: the width-only convenience function (plain differential, no simulation)
+    let mut helper_json = json!(null);
+    if property == "C16" {
+        let n = if tier == "thorough" { 60_000 } else { 6_000 };
+        let (evals, erroneous, bad) = helper_lane(&params, base_seed, n);
+        // minimise the smallest failing text line-wise
+        if let Some((text, w, _)) = bad.iter().min_by_key(|(t, _, _)| t.len()) {
+            let mut lines: Vec<&str> = text.split_inclusive('\n').collect();
+            let mut i = 0;
+            while i < lines.len() && lines.len() > 1 {
+                let mut cand = lines.clone();
+                cand.remove(i);
+                if helper_check(&cand.concat(), *w).is_some() {
+                    lines = cand;
+                } else {
+                    i += 1;
+                }
+            }
+            let min_text = lines.concat();
+            let msg = helper_check(&min_text, *w).unwrap_or_default();
+            let v = Violation { property: "C16".into(), invariant: "I16.4-width-helper".into(), step: 0, message: msg.clone() };
+            let dir = verif_dir().join("replays");
+            let _ = std::fs::create_dir_all(&dir);
+            let path = dir.join(format!("C16-I16.4-width-helper-{}.json", vsim::rng::fnv(min_text.as_bytes())));
+            let hr = HelperReplay { engine: "helper".into(), text: min_text.clone().into(), width: *w, violation: v };
+            let _ = std::fs::write(&path, serde_json::to_string_pretty(&hr).unwrap());
+            violations += 1;
+            println!("VIOLATION property=C16 replay={}", path.display());
+            println!("  invariant I16.4-width-helper: {}", msg);
+            println!("  text {:?} width {} ({} failing of {} evaluations)", vsim::util::excerpt(min_text.as_bytes(), 80), w, bad.len(), evals);
+            reported.push(json!({"invariant": "I16.4-width-helper", "message": msg, "replay": path}));
+        }
+        helper_json = json!({"evaluations": evals, "of_which_erroneous_input": erroneous, "failing": bad.len(), "note": "plain in-process differential of typstyle_core::format_with_width (wrapped by the wasm export) against Typstyle::format_content; no seam, no fault; the wasm build itself is not produced in this sandbox"});
+    }
+
     let wall = start.elapsed().as_secs_f64();
     let det = *determinism.lock().unwrap();
     let harness_fail = !stats.harness_errors.is_empty();
@@ -337,6 +442,7 @@ fn cmd_run(args: &[String]) -> i32 {
             "determinism": {"seeds_run_twice": det.0, "log_mismatches": det.1},
             "violations_of_other_properties_seen": *other_props.lock().unwrap(),
             "known_findings_hit": known_hits,
+            "I16.4_width_helper_differential": helper_json,
             "reported": reported,
             "harness_errors": stats.harness_errors.iter().take(10).collect::<Vec<_>>(),
             "real_vs_stub": {
@@ -416,6 +522,22 @@ fn cmd_replay(args: &[String]) -> i32 {
         eprintln!("cannot read {}", path);
         return 2;
     };
+    if let Ok(hr) = serde_json::from_str::<HelperReplay>(&text) {
+        if hr.engine == "helper" {
+            oracle::silence_panics();
+            return match hr.text.as_str().and_then(|t| helper_check(t, hr.width)) {
+                Some(msg) => {
+                    println!("VIOLATION property=C16 replay={}", path);
+                    println!("  invariant I16.4-width-helper: {}", msg);
+                    1
+                }
+                None => {
+                    println!("replay: the recorded violation (I16.4-width-helper) did not reproduce on this tree");
+                    0
+                }
+            };
+        }
+    }
     let rp: Replay = match serde_json::from_str(&text) {
         Ok(r) => r,
         Err(e) => {
